@@ -174,6 +174,24 @@ def gen_tables(rng, measures, dates, names, grid, nan_rate=0.08, drop_rate=0.2, 
     return out
 
 
+def own_indices(rng, spec, first=None, share=0.7):
+    """give the measures' tables their own indices (every data date stays a row): leading rows, in-between dates, trailing
+    rows, with values far from the neighbouring data rows; `first` (a hedged measure) always differs from the others"""
+    if rng.random() > share:
+        return
+    ms = list(spec["unit_risk"])
+    for m in ms:
+        force = m == first and len(ms) > 1
+        if not (force or rng.random() < 0.6):
+            continue
+        tab = spec["unit_risk"][m]
+        ds = R.gen_extra_dates(rng, spec["dates"], force=force)
+        if ds:
+            tab["extra_rows"] = [[d, {c: (None if rng.random() < 0.05 else float(rng.randint(-30, 45)) + rng.choice([0.0, 0.5]))
+                                      for c in tab["cols"]}] for d in ds]
+    spec["own_indices"] = sorted(m for m in ms if spec["unit_risk"][m].get("extra_rows"))
+
+
 def base_spec(rng, kind, fi, tree, dates, grid=None):
     grid = grid or rng.choice(["int", "dyadic", "float"])
     names = [s["sec"] for s in tree_secs(tree)]
@@ -215,6 +233,7 @@ def gen_risk_case(rng):
     secs = [s["sec"] for s in tree_secs(tree)]
     spec["measures"] = measures
     spec["unit_risk"] = gen_tables(rng, measures, dates, secs, spec["grid"])
+    own_indices(rng, spec, share=0.5)
     h = rng.choice([0, 1, 2, 2, 3])
     spec["history"] = h
     strats = tree_strats(tree)
@@ -301,6 +320,7 @@ def gen_hedge_case(rng, mult_one=None):
         for j, m in enumerate(hedged):
             tabs[m]["cols"][g] = [U[i][j] * f for f in scale_t]
     spec["unit_risk"] = tabs
+    own_indices(rng, spec, first=hedged[0])
     h = rng.choice([0, 1, 2])
     spec["history"] = h
     spec["hedge"] = {"measures": hedged, "instruments": instr, "pseudo": pseudo, "shape": shape, "mult_one": all(x["mult"] == 1.0 for x in hedges)}
@@ -348,6 +368,7 @@ def gen_hedge_extra_case(rng):
         for j, m in enumerate(measures):
             tabs[m]["cols"][g] = [U[i][j] * f for f in scale_t]
     spec["unit_risk"] = tabs
+    own_indices(rng, spec, first=measures[0])
     core["stack"].append({"k": "trade", "plan": trade_plan(rng, spec, core, [b["sec"] for b in bonds], first=False)})
     for m in measures:
         core["stack"].append({"k": "update_risk", "m": m, "history": 0})
@@ -583,7 +604,7 @@ def frames_of(spec):
     dates = pd.DatetimeIndex(spec["dates"])
     out = {}
     for m, tab in spec["unit_risk"].items():
-        df = pd.DataFrame({c: [np.nan if v is None else v for v in col] for c, col in tab["cols"].items()}, index=dates, dtype=float)
+        df = R.table_frame(spec["dates"], tab["cols"], tab.get("extra_rows"))
         if tab.get("drop_dates"):
             df = df.drop(index=[dates[i] for i in tab["drop_dates"]])
         out[m] = df
@@ -1386,6 +1407,8 @@ def run_case(ctx, bt, spec, pending, tag=""):
     ctx.classes.add(classify(spec, log, outcome))
     ctx.count("cases:%s%s" % (spec["kind"], ":" + spec["ill"] if spec.get("ill") else ""))
     ctx.count("driver:" + spec["driver"])
+    if spec.get("own_indices"):
+        ctx.count("tables-with-own-index:%s:%s" % (spec["kind"], spec["driver"]))
     if outcome["raised"] and outcome["raised"] != "algo":
         ctx.count("engine-refused:" + outcome["raised"].split(":")[0])
     for e in log:
